@@ -45,7 +45,7 @@ def stats_json(stats):
     out = {"pipelines_created": d["pipelines_created"], "containers_completed": d["containers_completed"],
            "assignments": d["assignments"], "suspensions": d["suspensions"], "failures": d["failures"],
            "failure_error_counts": [[k, v] for k, v in sorted(d["failure_error_counts"].items())],
-           "throughput": ratio(d["throughput"]), "p99_latency": ratio(d["p99_latency"])}
+           "throughput": ratio(d["throughput"]), "p99_latency": ratio(d["p99_latency"]), "adjusted": ratio(stats.adjusted_latency())}
     for k in ("pipelines_all", "pipelines_query", "pipelines_interactive", "pipelines_batch"):
         out[k] = {"arrival_count": d[k]["arrival_count"], "completion_count": d[k]["completion_count"],
                   "mean": ratio(d[k]["mean_latency_seconds"]), "p99": ratio(d[k]["p99_latency_seconds"])}
